@@ -41,7 +41,7 @@ def main():
     def nio(a):
         if len(a) == 0:
             # NumpyIO takes &data[0]; give it a 1-byte allocation viewed as empty
-            return NumpyIO(np.empty(1, dtype=np.uint8)[:0])
+            return NumpyIO(np.empty(1, dtype=np.uint8)[1:])     # points at the END of a 1-byte allocation
         return NumpyIO(a)
 
     def decoder(c, call):
@@ -103,7 +103,7 @@ def main():
         if fn == "unpack_byte_array":
             a = inbuf(c["inp"])
             if len(a) == 0:
-                a = np.empty(1, dtype=np.uint8)[:0]
+                a = np.empty(1, dtype=np.uint8)[1:]
             out = speedups.unpack_byte_array(a, c["n"], utf=c.get("utf", False))
             return ["ok", [None if x is None else (x.encode("utf-8", "surrogatepass").hex() if isinstance(x, str) else bytes(x).hex())
                            for x in out]]
@@ -159,6 +159,8 @@ def main():
     with open(out_p, "a") as out:
         start = int(sys.argv[5]) if len(sys.argv) > 5 else 0
         for i in range(start, len(cases)):
+            sys.stderr.write("@@CASE %d\n" % i)
+            sys.stderr.flush()
             try:
                 r = run(cases[i])
             except BaseException as e:      # noqa
